@@ -45,10 +45,14 @@ class Main(Part):
                 "thorough": dict(examples=4000, shards=16, seconds=900)}[tier]
 
     def strategy(self, tier):
-        return gen.case_shape(max_extent=6 if tier == "quick" else 9)
+        return gen.case_shape(max_extent=6 if tier == "quick" else 9, allow_take=True)
 
     def run_case(self, case):
         spec = case["spec"]
+        from . import c01
+        for name, pred in c01.EXCLUDED.items():
+            if pred(case):
+                raise Skip("known-finding-of-other-property", name)
         hf = oracle.compile_or_skip(spec)
         run = oracle.run_or_violation(str(hf), case, what="partitioned program")
         exp = oracle.compare_outputs(case, run, what="partitioned program")
